@@ -328,6 +328,11 @@ func (self *visitorUserNode) OnInt64(v int64, n json.Number) error {
 		if err = self.p.WriteFixed64(convertData); err != nil {
 			return err
 		}
+	// enum is written in JSON as its number (as conv/p2j does)
+	case proto.EnumKind:
+		if err = self.p.WriteEnum(proto.EnumNumber(v)); err != nil {
+			return err
+		}
 	// cast int2float, int2double
 	case proto.FloatKind:
 		convertData := float32(v)
